@@ -26,7 +26,7 @@ from valida.schema import Schema
 META = {
     "rule": "(a) 48 part terms x {long, shorthand, condition-only} styles x {type given, omitted}; (b) paths of length <= 2 "
             "over 12 parts x 5 datum x 5 multiplicity x 2 orders x key spellings (aliases, 3 letter cases); (c) every "
-            "segment list of length 0-3 over {a,b,0,1,-1,1.5,''} x delimiters '/' and '.'; (d) rules = 8 paths x 5 conditions "
+            "segment list of length 0-3 over {a,b,0,1,-1,1.5,'',0.0,-0.0,1e0} x delimiters '/' and '.'; (d) rules = 8 paths x 5 conditions "
             "x 3 casts x 8 doc shapes x {list, tuple} path containers; (e) every 1-2 rule schema over a 10-rule pool as "
             "YAML flow text, YAML block text and a YAML file; a case is one (term, spelling) pair; non-trivial = parsed, "
             "equal and compared on the probe documents",
@@ -159,7 +159,7 @@ def path_key_spellings(datum, multi, order):
 
 
 # ----------------------------------------------------------------------------- (c) path strings
-SEGS = ["a", "b", "0", "1", "-1", "1.5", ""]
+SEGS = ["a", "b", "0", "1", "-1", "1.5", "", "0.0", "-0.0", "1e0"]
 
 
 def seg_part(s):
